@@ -121,7 +121,8 @@ def instantiate(d, encoding="utf-8"):
 
 
 def env(bindings, encoding="utf-8"):
-    return {k: instantiate(v, encoding) for k, v in bindings.items()}
+    return {k: instantiate(v, encoding) for k, v in bindings.items()
+            if v is not None}
 
 
 HOSTILE = ["<", ">", "&", '"', "'", "<b>", "</a>", "&amp;", "&lt;", "]]>",
@@ -154,7 +155,8 @@ def scalars(hostile=True):
 
 
 def sequences(elem=None, max_size=4):
-    elem = elem or scalars()
+    if elem is None:
+        elem = scalars()
     items = st.lists(elem, max_size=max_size)
     return st.one_of(
         st.builds(lambda l: ["list", l], items),
